@@ -26,7 +26,7 @@ Theorem C15_never_sent_beyond_limit : forall cf k ops o m,
 Proof. exact never_sent_beyond_limit. Qed.
 Print Assumptions C15_never_sent_beyond_limit.
 
-(** The code BEFORE commit acd47a2 violated the property: max_hops = 1 everywhere, and agent 2 stored a two-hop path. *)
+(** The code BEFORE commit 45dead9 violated the property: max_hops = 1 everywhere, and agent 2 stored a two-hop path. *)
 Theorem C15_refuted_pre_fix :
   exists ops, map e_path (entries_pre [1; 1; 1] 3 ops 2) = [[1; 0]; [1; 0]] /\ limit_of [1; 1; 1] 2 = 1.
 Proof. exact C15_pre_fix_limit_ignored. Qed.
